@@ -19,7 +19,7 @@ func init() {
 		Title: "Shortened and pretty size renderings are exact and maximal",
 		Run:   runC13,
 		Explanation: "C13.tab: shortenUnits = B, KiB, MiB, GiB, TiB, PiB in that order, each with multiplier 2^(10k) in unitToValues, the post-loop unit is Exbibyte with multiplier 2^(10·len); in Shorten the mask constant + 1 equals 1 << the shift constant equals 1024, the `!= 0` test on the masked value precedes the shift of the same value, the in-loop return pairs the unshifted value with the unit of the current index; zero returns (0, Byte). " +
-			"C13.sep: appendSeparator as a decision table over (pretty bit, HTML bit): nothing / \" \" / \"&nbsp;\" / nothing. " +
+			"C13.methods: String / PrettyString / PrettyHTML evaluate to Formatter(<nil or fresh zero-length buffer>, s, 0 / FormatPretty / FormatPretty|FormatHTML) converted, independent of the marshal switches; formatter error: decimal fallback resp. panic; Formatter is initialised to DefaultFormatter. C13.buffer: the digit text and the destination do not share storage (append-only and buffer-independence rules of C16 on size.DefaultFormatter). C13.sep: appendSeparator as a decision table over (pretty bit, HTML bit): nothing / \" \" / \"&nbsp;\" / nothing. " +
 			"C13.group: residue analysis mod 3 of the grouping condition: a separator follows exactly the digits with a multiple of three digits to their right (9 residue pairs, exhaustive); C13.emit: the formatter converts Shorten's value with strconv in base 10, appends each digit of that text once in order (separators only through appendSeparator), then the unit, and returns that buffer.",
 		NotDecided:  []string{"the inductive value invariant value·1024^steps = size of the Shorten loop for all 2^64 sizes (follows from mask/shift agreement; stated, not machine-checked)"},
 		Assumptions: []string{"strconv.FormatUint prints canonical decimal"},
